@@ -108,6 +108,9 @@ def _build(case):
         kw.update({n: v for n, v in zip(names, (7e-4, 6e-4)) })
         if "lr_critic" in names:
             kw["lr_critic"] = 5e-4
+    if case.get("alt_receiver") and case["algo"] in ("PPO", "IPPO"):
+        # (C07) optional constructor values the saved agent leaves at None
+        kw["target_kl"] = 0.01
     if case["algo"] in zoo.MULTI and case["seed"] % 2:
         # agents of one policy / name group interleaved with another group
         kw["agent_ids"] = ["agent_0", "other_0", "agent_1"]
